@@ -3,6 +3,27 @@
 
 namespace Juniper.Pinned.TreeAccess
 
+/-- `backwardIterator.Next` in `container/tree`: signature and full statement list, locals renamed positionally -/
+def pin_container_tree_backwardIterator_Next : List String := ["func (r *backwardIterator[K, V]) Next() (KVPair[K, V], bool)",
+  "var v0 KVPair[K, V]",
+  "if r.done {",
+  "return v0, false",
+  "}",
+  "if r.c.lost() {",
+  "r.c.SeekLastLessOrEqual(r.c.Key())",
+  "}",
+  "if r.c.curr == nil {",
+  "return v0, false",
+  "}",
+  "v1 := r.c.Key()",
+  "if r.inRange != nil && !r.inRange(v1) {",
+  "r.done = true",
+  "return v0, false",
+  "}",
+  "v2 := r.c.valueUnchecked()",
+  "r.c.Prev()",
+  "return KVPair[K, V]{v1, v2}, true"]
+
 /-- `btree.Contains` in `container/tree`: signature and full statement list, locals renamed positionally -/
 def pin_container_tree_btree_Contains : List String := ["func (r *btree[K, V]) Contains(p0 K) bool",
   "v0 := r.root",
@@ -14,6 +35,11 @@ def pin_container_tree_btree_Contains : List String := ["func (r *btree[K, V]) C
   "v0 = v0.children[v1]",
   "}",
   "return false"]
+
+/-- `btree.Cursor` in `container/tree`: signature and full statement list, locals renamed positionally -/
+def pin_container_tree_btree_Cursor : List String := ["func (r *btree[K, V]) Cursor() cursor[K, V]",
+  "v0 := cursor[K, V]{t: r}",
+  "return v0"]
 
 /-- `btree.Get` in `container/tree`: signature and full statement list, locals renamed positionally -/
 def pin_container_tree_btree_Get : List String := ["func (r *btree[K, V]) Get(p0 K) V",
@@ -139,9 +165,175 @@ def pin_container_tree_btree_searchNode : List String := ["func (r *btree[K, V])
   "}",
   "return int(p1.n), false"]
 
+/-- `cursor.Key` in `container/tree`: signature and full statement list, locals renamed positionally -/
+def pin_container_tree_cursor_Key : List String := ["func (r *cursor[K, V]) Key() K",
+  "return r.k"]
+
+/-- `cursor.Next` in `container/tree`: signature and full statement list, locals renamed positionally -/
+def pin_container_tree_cursor_Next : List String := ["func (r *cursor[K, V]) Next()",
+  "if r.lost() {",
+  "r.SeekFirstGreater(r.k)",
+  "return",
+  "}",
+  "if r.curr == nil {",
+  "return",
+  "}",
+  "if r.curr.leaf() {",
+  "r.i++",
+  "if r.i < int(r.curr.n) {",
+  "r.k = r.curr.keys[r.i]",
+  "return",
+  "}",
+  "} else {",
+  "if r.i < int(r.curr.n) {",
+  "r.curr = leftmostLeaf(r.curr.children[r.i+1])",
+  "r.i = 0",
+  "r.k = r.curr.keys[r.i]",
+  "return",
+  "}",
+  "}",
+  "for {",
+  "if r.curr.parent == nil {",
+  "r.curr = nil",
+  "return",
+  "}",
+  "v0 := xslices.Index(r.curr.parent.children[:], r.curr)",
+  "r.curr = r.curr.parent",
+  "r.i = v0",
+  "if r.i < int(r.curr.n) {",
+  "r.k = r.curr.keys[r.i]",
+  "break",
+  "}",
+  "}"]
+
+/-- `cursor.Prev` in `container/tree`: signature and full statement list, locals renamed positionally -/
+def pin_container_tree_cursor_Prev : List String := ["func (r *cursor[K, V]) Prev()",
+  "if r.lost() {",
+  "r.SeekLastLess(r.k)",
+  "return",
+  "}",
+  "if r.curr == nil {",
+  "return",
+  "}",
+  "if r.curr.leaf() {",
+  "r.i--",
+  "if r.i >= 0 {",
+  "r.k = r.curr.keys[r.i]",
+  "return",
+  "}",
+  "} else {",
+  "if r.i >= 0 {",
+  "r.curr = rightmostLeaf(r.curr.children[r.i])",
+  "r.i = int(r.curr.n) - 1",
+  "r.k = r.curr.keys[r.i]",
+  "return",
+  "}",
+  "}",
+  "for {",
+  "if r.curr.parent == nil {",
+  "r.curr = nil",
+  "return",
+  "}",
+  "v0 := xslices.Index(r.curr.parent.children[:], r.curr)",
+  "r.curr = r.curr.parent",
+  "r.i = v0 - 1",
+  "if r.i >= 0 {",
+  "r.k = r.curr.keys[r.i]",
+  "break",
+  "}",
+  "}"]
+
+/-- `cursor.SeekFirst` in `container/tree`: signature and full statement list, locals renamed positionally -/
+def pin_container_tree_cursor_SeekFirst : List String := ["func (r *cursor[K, V]) SeekFirst()",
+  "if r.t.root.n == 0 {",
+  "r.curr = nil",
+  "return",
+  "}",
+  "r.curr = leftmostLeaf(r.t.root)",
+  "r.i = 0",
+  "r.k = r.curr.keys[r.i]",
+  "r.gen = r.t.gen"]
+
+/-- `cursor.SeekFirstGreater` in `container/tree`: signature and full statement list, locals renamed positionally -/
+def pin_container_tree_cursor_SeekFirstGreater : List String := ["func (r *cursor[K, V]) SeekFirstGreater(p0 K)",
+  "if !r.seek(p0) {",
+  "return",
+  "}",
+  "if r.t.compare(p0, r.k) >= 0 {",
+  "r.Next()",
+  "}"]
+
+/-- `cursor.SeekFirstGreaterOrEqual` in `container/tree`: signature and full statement list, locals renamed positionally -/
+def pin_container_tree_cursor_SeekFirstGreaterOrEqual : List String := ["func (r *cursor[K, V]) SeekFirstGreaterOrEqual(p0 K)",
+  "if !r.seek(p0) {",
+  "return",
+  "}",
+  "if r.t.compare(p0, r.k) > 0 {",
+  "r.Next()",
+  "}"]
+
+/-- `cursor.SeekLast` in `container/tree`: signature and full statement list, locals renamed positionally -/
+def pin_container_tree_cursor_SeekLast : List String := ["func (r *cursor[K, V]) SeekLast()",
+  "if r.t.root.n == 0 {",
+  "r.curr = nil",
+  "return",
+  "}",
+  "r.curr = rightmostLeaf(r.t.root)",
+  "r.i = int(r.curr.n) - 1",
+  "r.k = r.curr.keys[r.i]",
+  "r.gen = r.t.gen"]
+
+/-- `cursor.SeekLastLess` in `container/tree`: signature and full statement list, locals renamed positionally -/
+def pin_container_tree_cursor_SeekLastLess : List String := ["func (r *cursor[K, V]) SeekLastLess(p0 K)",
+  "if !r.seek(p0) {",
+  "return",
+  "}",
+  "if r.t.compare(p0, r.k) <= 0 {",
+  "r.Prev()",
+  "}"]
+
+/-- `cursor.SeekLastLessOrEqual` in `container/tree`: signature and full statement list, locals renamed positionally -/
+def pin_container_tree_cursor_SeekLastLessOrEqual : List String := ["func (r *cursor[K, V]) SeekLastLessOrEqual(p0 K)",
+  "if !r.seek(p0) {",
+  "return",
+  "}",
+  "if r.t.compare(p0, r.k) < 0 {",
+  "r.Prev()",
+  "}"]
+
+/-- `cursor.find` in `container/tree`: signature and full statement list, locals renamed positionally -/
+def pin_container_tree_cursor_find : List String := ["func (r *cursor[K, V]) find(p0 K) (*node[K, V], int, bool)",
+  "if r.t.root.n == 0 {",
+  "return nil, 0, false",
+  "}",
+  "v0 := r.t.root",
+  "for {",
+  "v1, v2 := r.t.searchNode(p0, v0)",
+  "if v2 {",
+  "return v0, v1, true",
+  "}",
+  "if v0.leaf() {",
+  "if v1 == int(v0.n) {",
+  "v1--",
+  "}",
+  "return v0, v1, false",
+  "}",
+  "v0 = v0.children[v1]",
+  "}"]
+
 /-- `cursor.lost` in `container/tree`: signature and full statement list, locals renamed positionally -/
 def pin_container_tree_cursor_lost : List String := ["func (r *cursor[K, V]) lost() bool",
   "return r.gen != r.t.gen && r.curr != nil && (r.i >= int(r.curr.n) || r.t.compare(r.k, r.curr.keys[r.i]) != 0)"]
+
+/-- `cursor.seek` in `container/tree`: signature and full statement list, locals renamed positionally -/
+def pin_container_tree_cursor_seek : List String := ["func (r *cursor[K, V]) seek(p0 K) bool",
+  "r.curr, r.i, _ = r.find(p0)",
+  "if r.curr == nil {",
+  "return false",
+  "}",
+  "r.k = r.curr.keys[r.i]",
+  "r.gen = r.t.gen",
+  "return true"]
 
 /-- `cursor.valueUnchecked` in `container/tree`: signature and full statement list, locals renamed positionally -/
 def pin_container_tree_cursor_valueUnchecked : List String := ["func (r *cursor[K, V]) valueUnchecked() V",
@@ -149,14 +341,21 @@ def pin_container_tree_cursor_valueUnchecked : List String := ["func (r *cursor[
 
 /-- `forwardIterator.Next` in `container/tree`: signature and full statement list, locals renamed positionally -/
 def pin_container_tree_forwardIterator_Next : List String := ["func (r *forwardIterator[K, V]) Next() (KVPair[K, V], bool)",
+  "var v0 KVPair[K, V]",
+  "if r.done {",
+  "return v0, false",
+  "}",
   "if r.c.lost() {",
   "r.c.SeekFirstGreaterOrEqual(r.c.Key())",
   "}",
   "if r.c.curr == nil {",
-  "var v0 KVPair[K, V]",
   "return v0, false",
   "}",
   "v1 := r.c.Key()",
+  "if r.inRange != nil && !r.inRange(v1) {",
+  "r.done = true",
+  "return v0, false",
+  "}",
   "v2 := r.c.valueUnchecked()",
   "r.c.Next()",
   "return KVPair[K, V]{v1, v2}, true"]
@@ -165,6 +364,16 @@ def pin_container_tree_forwardIterator_Next : List String := ["func (r *forwardI
 def pin_container_tree_insertOne : List String := ["func insertOne[T0 any](p0 []T0, p1 int, p2 T0)",
   "copy(p0[p1+1:], p0[p1:])",
   "p0[p1] = p2"]
+
+/-- `leftmostLeaf` in `container/tree`: signature and full statement list, locals renamed positionally -/
+def pin_container_tree_leftmostLeaf : List String := ["func leftmostLeaf[T0 any, T1 any](p0 *node[T0, T1]) *node[T0, T1]",
+  "v0 := p0",
+  "for {",
+  "if v0.leaf() {",
+  "return v0",
+  "}",
+  "v0 = v0.children[0]",
+  "}"]
 
 /-- `newAmalgam1` in `container/tree`: signature and full statement list, locals renamed positionally -/
 def pin_container_tree_newAmalgam1 : List String := ["func newAmalgam1[T0 any, T1 any](p0 func(T0, T0) int, p1 *[maxKVs]T0, p2 *[maxKVs]T1, p3 *[branchFactor]*node[T0, T1], p4 T0, p5 T1, p6 *node[T0, T1]) amalgam1[T0, T1]",
@@ -178,6 +387,24 @@ def pin_container_tree_newAmalgam1 : List String := ["func newAmalgam1[T0 any, T
   "return len(p1)",
   "}",
   "return amalgam1[T0, T1]{keys: p1, values: p2, children: p3, extraKey: p4, extraValue: p5, extraChild: p6, extraIdx: v0}"]
+
+/-- `node.leaf` in `container/tree`: signature and full statement list, locals renamed positionally -/
+def pin_container_tree_node_leaf : List String := ["func (r *node[K, V]) leaf() bool",
+  "return r.children[0] == nil"]
+
+/-- `rightmostLeaf` in `container/tree`: signature and full statement list, locals renamed positionally -/
+def pin_container_tree_rightmostLeaf : List String := ["func rightmostLeaf[T0 any, T1 any](p0 *node[T0, T1]) *node[T0, T1]",
+  "v0 := p0",
+  "for {",
+  "if v0.leaf() {",
+  "return v0",
+  "}",
+  "v0 = v0.children[int(v0.n)]",
+  "}"]
+
+/-- `Index` in `xslices`: signature and full statement list, locals renamed positionally -/
+def pin_xslices_Index : List String := ["func Index[T0 comparable](p0 []T0, p1 T0) int",
+  "return slices.Index(p0, p1)"]
 
 /-- type `Bound` of `container/tree`: one line per field / method -/
 def pin_container_tree_type_Bound : List String := ["type Bound[K any] struct",
@@ -209,7 +436,9 @@ def pin_container_tree_type_amalgam1 : List String := ["type amalgam1[K any, V a
 
 /-- type `backwardIterator` of `container/tree`: one line per field / method -/
 def pin_container_tree_type_backwardIterator : List String := ["type backwardIterator[K any, V any] struct",
-  "c cursor[K, V]"]
+  "c cursor[K, V]",
+  "inRange func(K) bool",
+  "done bool"]
 
 /-- type `boundType` of `container/tree`: one line per field / method -/
 def pin_container_tree_type_boundType : List String := ["type boundType int"]
@@ -231,7 +460,9 @@ def pin_container_tree_type_cursor : List String := ["type cursor[K any, V any] 
 
 /-- type `forwardIterator` of `container/tree`: one line per field / method -/
 def pin_container_tree_type_forwardIterator : List String := ["type forwardIterator[K any, V any] struct",
-  "c cursor[K, V]"]
+  "c cursor[K, V]",
+  "inRange func(K) bool",
+  "done bool"]
 
 /-- type `node` of `container/tree`: one line per field / method -/
 def pin_container_tree_type_node : List String := ["type node[K any, V any] struct",
@@ -248,5 +479,8 @@ def pin_container_tree_vars : List String := ["const branchFactor = 16",
   "const boundInclude boundType = iota + 1",
   "const boundExclude",
   "const boundUnbounded"]
+
+/-- package-level var / const declarations of `xslices`, in source order -/
+def pin_xslices_vars : List String := []
 
 end Juniper.Pinned.TreeAccess
